@@ -27,6 +27,10 @@ pub struct Scenario {
     /// Only evaluate these crash points (set by the minimiser); None = all.
     #[serde(default)]
     pub only_crash_points: Option<Vec<usize>>,
+    /// after the restart, other streams first write this many KiB to the log before the threads
+    /// are appended to (next-seq recovery must not depend on the thread's tail being near the end)
+    #[serde(default)]
+    pub bulk_kib_before_continue: u32,
 }
 
 pub struct C05;
@@ -99,6 +103,7 @@ pub fn generate(run_seed: u64, tier: Tier) -> Scenario {
         sim_seed: crate::prng::mix_label(run_seed, "sim"),
         history,
         only_crash_points: None,
+        bulk_kib_before_continue: if Rng::derive(run_seed, "bulk").chance(1, 8) { 1300 } else { 0 },
     }
 }
 
@@ -146,7 +151,7 @@ fn abstract_state(cs: &CrashState) -> u64 {
 }
 
 /// Judge one restarted crash state. Runs the real restart + continuation on fresh threads.
-fn judge(dirs: &Dirs, cs: &CrashState, acked: &[(String, String)], stats: &mut RunStats) -> Option<Violation> {
+fn judge(dirs: &Dirs, cs: &CrashState, acked: &[(String, String)], bulk_kib: u32, stats: &mut RunStats) -> Option<Violation> {
     // restore the captured state in place (frames embed the workspace path)
     let _ = std::fs::remove_dir_all(&dirs.data);
     let _ = std::fs::remove_dir_all(rip_dir(dirs));
@@ -261,6 +266,18 @@ fn judge(dirs: &Dirs, cs: &CrashState, acked: &[(String, String)], stats: &mut R
             });
             return;
         }
+        // optionally other streams write a lot first, so the thread's last frame is far from the
+        // end of the log when its next seq has to be recovered
+        if bulk_kib > 0 {
+            let blob = "x".repeat(100 * 1024);
+            for k in 0..(bulk_kib / 100).max(1) {
+                let ev = rip_kernel::Event { id: format!("bulk-{k}"), session_id: "bulk-session".into(), timestamp_ms: 1, seq: k as u64, kind: rip_kernel::EventKind::OutputTextDelta { delta: blob.clone() } };
+                if let Err(e) = st.log.append(&ev) {
+                    fail(Violation { class: "append_fails_after_crash".into(), signature: format!("append_fails_after_crash:{sig2}"), detail: format!("crash {at2}: bulk session append failed: {e}") });
+                    return;
+                }
+            }
+        }
         // continuation: every thread gets an append; the first also a full run, a branch and an
         // auto compaction — this is what exercises next-seq recovery from whatever the crash left
         for (i, t) in threads2.iter().enumerate().take(4) {
@@ -290,14 +307,26 @@ fn judge(dirs: &Dirs, cs: &CrashState, acked: &[(String, String)], stats: &mut R
                 },
             );
         }
-        if threads2.is_empty() {
-            // crash before the first thread existed: the store must still be able to start one
-            if let Err(e) = st.store.ensure_default() {
-                fail(Violation {
-                    class: "append_fails_after_crash".into(),
-                    signature: format!("ensure_default_fails_after_crash:{sig2}"),
-                    detail: format!("crash {at2}: ensure_default on the restarted store failed: {e}"),
-                });
+        // whatever the crash left of the thread index, the workspace's default thread must be
+        // obtainable and must accept a post
+        match st.store.ensure_default() {
+            Err(e) => {
+                if threads2.is_empty() {
+                    fail(Violation {
+                        class: "append_fails_after_crash".into(),
+                        signature: format!("ensure_default_fails_after_crash:{sig2}"),
+                        detail: format!("crash {at2}: ensure_default on the restarted store failed: {e}"),
+                    });
+                }
+            }
+            Ok(t) => {
+                if let Err(e) = st.store.append_message(&t, "post-crash".into(), "sim".into(), "to the default thread".into()) {
+                    fail(Violation {
+                        class: "append_fails_after_crash".into(),
+                        signature: format!("append_to_default_thread_fails_after_crash:{sig2}"),
+                        detail: format!("crash {at2}: ensure_default returned {t} but a post to it fails: {e}"),
+                    });
+                }
             }
         }
     });
@@ -515,7 +544,7 @@ pub fn execute(sc: &Scenario, env: &Env) -> (Outcome, RunStats) {
         if cs.before_effect != "end" {
             seen_states.insert(h);
         }
-        if let Some(mut v) = judge(&dirs, cs, &acked, &mut stats) {
+        if let Some(mut v) = judge(&dirs, cs, &acked, sc.bulk_kib_before_continue, &mut stats) {
             if v.class == "harness" {
                 stats.sim_time_ns = storesim::end_run();
                 return (Outcome::Harness(v.detail), stats);
@@ -636,7 +665,7 @@ impl Check for C05 {
         serde_json::to_value(sc).unwrap()
     }
     fn rule(&self) -> String {
-        "one run = one seeded history of 3-16 store operations (messages incl. frames larger than the 8 KiB writer buffer, full runs with compile/side-effects/cursor, manual and automatic compaction, branch, handoff) executed once; EVERY mutating file-system effect boundary of the run (log, each sidecar and index, index.json tmp+rename, artifact tmp+rename) is a crash point: the captured on-disk state is restarted with a fresh EventLog+ContinuityStore, replayed, continued with further appends and judged; evaluations = crash states restarted; distinct = distinct abstract crash state (files per class, lines per class, torn-frame flag, next effect class); exhaustive within each history, sampled across histories".into()
+        "one run = one seeded history of 3-16 store operations (messages incl. frames larger than the 8 KiB writer buffer, full runs with compile/side-effects/cursor, manual and automatic compaction, branch, handoff) executed once; EVERY mutating file-system effect boundary of the run (log, each sidecar and index, index.json tmp+rename, artifact tmp+rename) is a crash point: the captured on-disk state is restarted with a fresh EventLog+ContinuityStore, replayed, continued with further appends (1 in 8 histories first let another stream write 1.3 MB, so the threads' tails are far from the end of the log; the default thread must be obtainable and accept a post) and judged; evaluations = crash states restarted; distinct = distinct abstract crash state (files per class, lines per class, torn-frame flag, next effect class); exhaustive within each history, sampled across histories".into()
     }
     fn assumptions(&self) -> Vec<String> {
         vec![
